@@ -101,6 +101,22 @@ fn blank_imports(text: &str, imps: &[ImportInfo]) -> String {
     out
 }
 
+/// The text of an import statement with every item replaced by `§`.
+fn skeleton(text: &str, i: &ImportInfo) -> String {
+    let mut out = String::new();
+    let mut last = i.range.0;
+    for &(s, e) in &i.item_ranges {
+        if s < last || e > i.range.1 {
+            continue;
+        }
+        out.push_str(&text[last..s]);
+        out.push('§');
+        last = e;
+    }
+    out.push_str(&text[last..i.range.1]);
+    out
+}
+
 fn has_dup(names: &[String]) -> bool {
     let mut s = std::collections::HashSet::new();
     names.iter().any(|n| !s.insert(n))
@@ -164,6 +180,21 @@ pub fn check(x: &str, px: &SyntaxNode, width: usize, tab: usize, acc: &mut Acc, 
             }
         }
     }
+    // … nor inside the import statements, once every item is replaced by a placeholder (blank lines, line breaks,
+    // parentheses, trailing commas, alias keywords are all "something else")
+    for (k, (b, c)) in ioff.iter().zip(ion.iter()).enumerate() {
+        let sb = skeleton(&off, b);
+        let sc = skeleton(&on, c);
+        if sb != sc {
+            return Ok(Some(format!(
+                "import #{}: with reorder on the statement differs from reorder off in more than the order of its items: {:?} vs {:?}",
+                k,
+                util::clip(&sb, 100),
+                util::clip(&sc, 100)
+            )));
+        }
+    }
+    acc.count("import_skeletons_compared", ioff.len() as u64);
     // nothing else differs between the two outputs
     let boff = blank_imports(&off, &ioff);
     let bon = blank_imports(&on, &ion);
